@@ -43,7 +43,23 @@ def stratified(lines, budget, seed):
     return picked, len(keys)
 
 
+class _JudgeFirst:
+    """Buffers violations and hands the ones with a concrete failing input to ctx first
+    (ctx.finish writes replay files for the first few only)."""
+    def __init__(self, ctx):
+        self.ctx, self.buf = ctx, []
+
+    def violation(self, kind, what, payload, fingerprint=None, found_input=True):
+        self.buf.append((0 if (found_input and kind == "judge") else 1, len(self.buf), kind, what, payload, fingerprint, found_input))
+
+    def flush(self):
+        for _, _, kind, what, payload, fp, fi in sorted(self.buf, key=lambda x: (x[0], x[1])):
+            self.ctx.violation(kind, what, payload, fingerprint=fp, found_input=fi)
+        self.buf = []
+
+
 def run(ctx):
+    jf = _JudgeFirst(ctx)
     ctx.trusted += [
         "hand model TsVerif/C19/Model.lean of load_language_at_path_with_name / compile_parser_to_dylib / LockFile "
         "(tied by step-by-step correspondence when the hook is applied, by outcome reachability otherwise)",
@@ -60,6 +76,7 @@ def run(ctx):
     driver = ctx.build_driver("tsv-c19")
     explorer = ctx.cargo_bin("c19")
     if not (explorer and os.path.exists(driver)):
+        jf.flush()
         return ctx.finish()
     ops = os.path.join(ctx.workdir, "ops.txt")
     work = os.path.join(ctx.workdir, "w")
@@ -90,6 +107,7 @@ def run(ctx):
     ctx.log(out.strip().split("\n")[-1] if out.strip() else "explorer silent")
     if rc != 0 or not os.path.exists(ops):
         ctx.oblige("run:explorer", False, out[-800:])
+        jf.flush()
         return ctx.finish()
     specs, mode = {}, {}
     for line in open(ops):
@@ -130,7 +148,7 @@ def run(ctx):
         if kv["judge"] != "ok":
             judge_bad += 1
             clause = kv["judge"].split(":")[1] if ":" in kv["judge"] else kv["judge"]
-            ctx.violation("judge", "C19 judge failed on the real loader's outcome: %s (results=%s later=%s; %s)" %
+            jf.violation("judge", "C19 judge failed on the real loader's outcome: %s (results=%s later=%s; %s)" %
                           (kv["judge"], r.get("results"), r.get("later"), specs.get(cid, "")[:200]), payload,
                           fingerprint={"clause": clause, "broken": r.get("broken", "?"), "later": r.get("later", "?"),
                                        "lockleft": r.get("lockleft", "?"),
@@ -146,7 +164,7 @@ def run(ctx):
             variants[kv.get("variant")] = variants.get(kv.get("variant"), 0) + 1
             if kv["corr"] != "ok":
                 corr_bad += 1
-                ctx.violation("corr", "model and real loader disagree: %s (%s)" % (kv["corr"], specs.get(cid, "")[:200]),
+                jf.violation("corr", "model and real loader disagree: %s (%s)" % (kv["corr"], specs.get(cid, "")[:200]),
                               dict(payload, correspondence="TsVerif.C19.step/mstep vs crates/loader/src/loader.rs"),
                               fingerprint={"corr": "diff"}, found_input=False)
     # one protocol variant must explain every case
@@ -179,4 +197,5 @@ def run(ctx):
         ctx.oblige("run:driver-produced-results", False,
                    ("a controlled schedule can only be replayed with hooks/C19-loader-points.diff applied "
                     "(tools/with_patch hooks/C19-loader-points.diff -- ./check C19 --replay <file>); " if not hook else "") + out[-500:])
+    jf.flush()
     return ctx.finish()
